@@ -128,7 +128,7 @@ func c04Scenario(rng *rand.Rand) *prodScenario {
 	}
 	// light faults so that retried, re-batched and de-duplicated batches are covered
 	if rng.Intn(2) == 0 && sc.Acks != sarama.NoResponse {
-		weights := []int{50, 10, 10, 0, 0, 5, 8, 0, 5, 0}
+		weights := []int{50, 10, 10, 0, 0, 5, 8, 0, 5, 3, 0}
 		sc.Faults = randomFaultWord(rng, 2+rng.Intn(8), weights)
 		for _, f := range sc.Faults {
 			sc.FaultCodes = append(sc.FaultCodes, pickCode(f, rng))
